@@ -131,11 +131,10 @@ class MapToMolecule(Processor):
         restart_attr = nx.get_node_attributes(meta_molecule, "from_itp")
         restart_graph.add_nodes_from(restart_attr.keys())
 
-        # in case we only have a single residue
-        # we assume the user is sane and that residue is not from
-        # an itp file
-        if len(meta_molecule.nodes) == 1:
-            regular_graph.add_nodes_from(meta_molecule.nodes)
+        # residues that are not from an itp file are regular residues also
+        # when they have no edge to any other residue (a single residue, or
+        # e.g. the two strands of a single base pair)
+        regular_graph.add_nodes_from(node for node in meta_molecule.nodes if node not in restart_attr)
 
         # this will falsely also connect two molecules with the
         # same molecule name, if they are from_itp and consecutively
